@@ -251,22 +251,18 @@ datetime.max, same attributes — and no warning is issued. -/
 theorem C15_save_load_roundtrip (decode : Bytes → Option J) (encode : J → Bytes)
     (hrt : ∀ j, decode (encode j) = some j)
     (d : Disk) (file : String) (c : CacheMap) (hc : WFCache c) (chunks : List Bytes) (flushes : List Nat)
-    (hch : ∀ j, cacheDoc c = some j → chunks.flatten = encode j) :
-    (∃ j, cacheDoc c = some j) ∧
+    (hch : chunks.flatten = encode (cacheDoc c)) :
     init decode (run d (saveEvents file chunks flushes)) file = ⟨c, false⟩ := by
-  obtain ⟨j, hj1, hj2⟩ := docToMap_cacheDoc c hc
-  refine ⟨⟨j, hj1⟩, ?_⟩
-  simp only [init, load, (run_full d file chunks flushes).1, hch j hj1, hrt, hj2]
+  simp only [init, load, (run_full d file chunks flushes).1, hch, hrt, docToMap_cacheDoc c hc]
   rw [update_nil c hc.1]
 
 /-- the same with a non-empty cache at load time: `load_cache` is a dictionary update -/
 theorem C15_save_load_update (decode : Bytes → Option J) (encode : J → Bytes)
     (hrt : ∀ j, decode (encode j) = some j)
     (d : Disk) (file : String) (c c0 : CacheMap) (hc : WFCache c) (chunks : List Bytes) (flushes : List Nat)
-    (hch : ∀ j, cacheDoc c = some j → chunks.flatten = encode j) :
+    (hch : chunks.flatten = encode (cacheDoc c)) :
     load decode (run d (saveEvents file chunks flushes)) file c0 = ⟨c0.update c, false⟩ := by
-  obtain ⟨j, hj1, hj2⟩ := docToMap_cacheDoc c hc
-  simp only [load, (run_full d file chunks flushes).1, hch j hj1, hrt, hj2]
+  simp only [load, (run_full d file chunks flushes).1, hch, hrt, docToMap_cacheDoc c hc]
 
 /-- **C15_load_total** — `load_cache` never raises (the model function is total and every failure path ends in
 the warning branch) and:
@@ -323,6 +319,46 @@ theorem C15_load_total (decode : Bytes → Option J) (d : Disk) (file : String) 
                 · simp at h'
                 · obtain ⟨e, he, hfe⟩ := mapM_mem fromJsonDict es infos hinfos i h1
                   exact ⟨b, j, es, e, hb, hj, hes, he, hfe, h2⟩
+
+private theorem mapM_none_of_mem {α β : Type} (f : α → Option β) (l : List α) (x : α) (hx : x ∈ l)
+    (hf : f x = none) : l.mapM f = none := by
+  induction l with
+  | nil => simp at hx
+  | cons a r ih =>
+    simp only [List.mapM_cons]
+    simp only [List.mem_cons] at hx
+    rcases hx with rfl | hx
+    · simp [hf]
+    · cases f a <;> simp [ih hx]
+
+/-- **C15_null_time_rejected** (behaviour since `fix:` ace221c) — a document in which some entry has a JSON `null`
+(or any non-string) as start or end time is malformed as a whole: warning, cache unchanged — no entry of that
+document, not even a well-formed one, reaches the cache. -/
+theorem C15_null_time_rejected (decode : Bytes → Option J) (d : Disk) (file : String) (c : CacheMap)
+    (b : Bytes) (j : J) (es : List J) (kvs : List (String × J)) (t0 t1 : J) (rest : List J)
+    (hf : d.files file = some (.file b)) (hj : decode b = some j) (hes : entriesOf j = some es)
+    (he : J.obj kvs ∈ es) (ht : jget kvs "times" = some (.arr (t0 :: t1 :: rest)))
+    (hnull : t0 = .null ∨ t1 = .null) :
+    (load decode d file c).warned = true ∧ (load decode d file c).cache = c := by
+  apply (C15_load_total decode d file c).2.1
+  refine Or.inr ⟨b, hf, Or.inr ⟨j, hj, ?_⟩⟩
+  have hts : timeSlot .null = none := rfl
+  have htimes : timesOf (.arr (t0 :: t1 :: rest)) = none := by
+    rcases hnull with h | h <;> subst h
+    · simp [timesOf, hts]
+    · simp only [timesOf, hts]
+      cases timeSlot t0 <;> rfl
+  have hnone : fromJsonDict (J.obj kvs) = none := by
+    unfold fromJsonDict
+    simp only [ht]
+    split
+    · rename_i p ts a h1 h2 h3
+      simp only [Option.some.injEq] at h2
+      subst h2
+      rw [htimes]
+      cases p.toKey? <;> rfl
+    · rfl
+  simp [docToMap, hes, mapM_none_of_mem fromJsonDict es _ he hnone]
 
 /-- **C15_truncated_warns** — with the JSON contract "no strict prefix of an encoding decodes", a cache file cut
 at any byte produces the warning and leaves the cache unchanged. -/
@@ -387,7 +423,7 @@ theorem C15_reset_recomputes (compute : Key → Option Info) (c : CacheMap) (p :
 /-! ## non-vacuity: concrete states satisfying the hypotheses -/
 
 private def exInfo : Info :=
-  { path := .str "/d/2018/a.nc", t0 := .time ⟨1, 1, 1, 0, 0, 0, 0⟩, t1 := .time ⟨9999, 12, 31, 23, 59, 59, 999999⟩,
+  { path := .str "/d/2018/a.nc", t0 := ⟨1, 1, 1, 0, 0, 0, 0⟩, t1 := ⟨9999, 12, 31, 23, 59, 59, 999999⟩,
     attr := .obj [("sat", .str "A")] }
 
 example : WFCache [(exInfo.path, exInfo)] := by
@@ -395,7 +431,7 @@ example : WFCache [(exInfo.path, exInfo)] := by
   intro kv hkv
   simp only [List.mem_singleton] at hkv
   subst hkv
-  exact ⟨rfl, ⟨_, rfl, by decide⟩, ⟨_, rfl, by decide⟩, by simp [exInfo]⟩
+  exact ⟨rfl, by decide, by decide, by simp [exInfo]⟩
 
 example : Consistent (fun k => if k = exInfo.path then some exInfo else none) [(exInfo.path, exInfo)] := by
   intro k i h
@@ -412,14 +448,18 @@ private def d0 : Disk := { files := (FS.empty.set "c" (.file [1, 2, 3])), bufs :
 #guard (crashHard d0 (saveEvents "c" [[7], [8, 9]] [1]) 6).files "c" == some (.file [7, 8, 9])
 #guard (crashHard d0 (saveEvents "c" [[7], [8, 9]] [1]) 6).files "c.backup" == none
 #guard (crashHard d0 (saveEvents "c" [[7], [8, 9]] [1]) 5).files "c" == some (.file [1, 2, 3])
-#guard (fromJsonDict (.obj [("path", .str "p"), ("times", .arr [.null, .null]), ("attr", .null)])).isSome
+-- a null time makes the entry (hence the whole document) malformed since fix ace221c
+#guard (fromJsonDict (.obj [("path", .str "p"), ("times", .arr [.null, .null]), ("attr", .null)])).isNone
+#guard (fromJsonDict (.obj [("path", .str "p"), ("times", .arr [.str "2020-01-01T00:00:00.000000", .null]), ("attr", .null)])).isNone
+#guard (fromJsonDict (.obj [("path", .str "p"), ("times", .arr [.str "2020-01-01T00:00:00.000000", .str "2020-01-01T00:00:00.5"]), ("attr", .null)])).isSome
+#guard (docToMap (.arr [.obj [("path", .str "p"), ("times", .arr [.null, .null]), ("attr", .obj [])]])).isNone
 #guard (fromJsonDict (.obj [("path", .str "p"), ("times", .arr [.str "x", .null]), ("attr", .null)])).isNone
 #guard (fromJsonDict (.obj [("path", .arr []), ("times", .arr [.null, .null]), ("attr", .null)])).isNone
 #guard (fromJsonDict (.obj [("path", .str "p"), ("attr", .null)])).isNone
 #guard (docToMap (.obj [])).isSome && (docToMap (.obj [("a", .null)])).isNone && (docToMap (.num "3")).isNone
 
 assert_axioms C15_time_text_roundtrip C15_time_text_injective C15_crash_consistent C15_crash_exception
-  C15_crash_old_or_new C15_save_load_roundtrip C15_save_load_update C15_load_total C15_truncated_warns
+  C15_crash_old_or_new C15_save_load_roundtrip C15_save_load_update C15_load_total C15_null_time_rejected C15_truncated_warns
   C15_find_same_with_cache C15_reset_recomputes
 
 end Cache
